@@ -13,7 +13,7 @@ use serde::{Deserialize, Serialize};
 use serde_json::{json, Value};
 use std::io::Cursor;
 
-pub const CARRIERS_MS: [&str; 4] = ["message_header", "radial_header", "radial_model_timestamp", "volume_header"];
+pub const CARRIERS_MS: [&str; 5] = ["message_header", "radial_header", "radial_model_timestamp", "radial_model_time", "volume_header"];
 pub const CARRIERS_MIN: [&str; 3] = ["rda_bypass_map", "rda_clutter_map", "cfm_header"];
 
 #[derive(Clone, Debug, Serialize, Deserialize)]
@@ -44,7 +44,7 @@ fn accessor(carrier: &str, date: u32, time: u32) -> Result<Option<i64>, Fail> {
             let hdr = decode_message_header(&mut &bytes[..]).map_err(|e| Fail::new("decode-error", format!("{:?}", e)))?;
             Ok(conv(hdr.date_time()))
         }
-        "radial_header" | "radial_model_timestamp" => {
+        "radial_header" | "radial_model_timestamp" | "radial_model_time" => {
             let h = wire::DrdHeaderSpec {
                 radar_id: *b"KTLX",
                 time,
@@ -67,6 +67,12 @@ fn accessor(carrier: &str, date: u32, time: u32) -> Result<Option<i64>, Fail> {
                 .map_err(|e| Fail::new("decode-error", format!("{:?}", e)))?;
             if carrier == "radial_header" {
                 Ok(conv(msg.header.date_time()))
+            } else if carrier == "radial_model_time" {
+                // the model radial's chrono view of the same instant (nexrad-model feature chrono)
+                match msg.into_radial() {
+                    Ok(r) => Ok(conv(r.collection_time())),
+                    Err(_) => Ok(None),
+                }
             } else {
                 match msg.radial() {
                     Ok(r) => Ok(Some(r.collection_timestamp())),
